@@ -49,7 +49,15 @@ def assignSvcs (c : Nat) : List Svc → List Svc × Nat
     let p := assignSvcs cs.2 r
     ({ s with id := c, chars := cs.1 } :: p.1, p.2)
 
+/-- `UpdateIDs`: numbering starts at 1 on every call (F49 repair) — the ids are a function of the list of services and
+    characteristics alone, however often the accessory is numbered (every `AddAccessory` numbers it, also one that is
+    refused, and every new container does) -/
 def Acc.updateIDs (a : Acc) : Acc :=
+  let p := assignSvcs 1 a.svcs
+  { a with svcs := p.1, idCount := p.2 }
+
+/-- before the repair the numbering went on from where the previous call had stopped -/
+def Acc.updateIDsOld (a : Acc) : Acc :=
   let p := assignSvcs a.idCount a.svcs
   { a with svcs := p.1, idCount := p.2 }
 
